@@ -36,6 +36,18 @@ add("C19", "RX+BSTR",
     "delimiter-free ('/' allowed in trailing **), newline-free; trusted: z3, CPython sre parser, the RX/BSTR "
     "translators (validated against CPython re on concrete strings each run).")
 
+add("C07", "CH",
+    "CrossHair (z3) per-path symbolic execution: real Method.paged_result_field on descriptor stand-ins; "
+    "emitted pagers.py loaded unmodified over symbolic page histories",
+    "For ALL proto types/labels/presence patterns the classification equals the AIP-4233 sentence; for ALL server "
+    "page histories within the bound the emitted sync and async pagers yield the items in order, thread tokens, keep "
+    "request/options, stop at the first empty token and expose the most recent page (CrossHair 'Confirmed over all "
+    "paths'; counterexamples replayed in plain Python).",
+    "DESIGN.md section 5 C07",
+    "Bounds: <=3 pages x <=2 items quick (5 x 3 thorough), tokens <=2 chars. Message classes are pure-Python stand-ins "
+    "(lib/fakes.py); descriptors are SimpleNamespace stand-ins. Trusted: CrossHair 0.0.110 + z3 (guarded by a "
+    "reachability twin and in-memory mutant canaries each run).")
+
 PENDING = {}
 
 
